@@ -1,5 +1,5 @@
 (* Model/LinearFit.v — kneeliverse.linear_fit (formula layer), as repaired in /repo
-   (D4: cross2d instead of np.cross; D5: no `left +`; D15: element-wise projection).
+   (D4: cross2d instead of np.cross; D5: no `left +`; D15: element-wise projection; rmspe passes eps on).
    Generic over N : Num.  linear_fit.py is NOT jitted: np.sum / np.mean there are NumPy's pairwise
    `np_sum` / `np_mean`; the metrics it delegates to are the numba ones of Model/Metrics.v.
    Modelled by closed forms (compared under tolerance only, never bit-for-bit):
@@ -55,10 +55,9 @@ Section LinearFit.
   (* py: linear_fit.py:197-211 linear_r2_points *)
   Definition linear_r2_points (P : list pt) (c : coef) (k : r2kind) : T N := linear_r2 (xs P) (ys P) c k.
 
-  (* py: linear_fit.py:263-277 rmspe — NOTE: the eps argument is NOT passed on (metrics.rmspe(y, y_hat)),
-     so the module default `deps` (1e-16) is what is used.  Modelled as the code is. *)
-  Definition lf_rmspe (deps : T N) (x y : list (T N)) (c : coef) (eps : T N) : T N :=
-    rmspe y (linear_transform x c) deps.
+  (* py: linear_fit.py:263-277 rmspe   metrics.rmspe(y, y_hat, eps)  (eps passed on since the fix 23fe66a) *)
+  Definition lf_rmspe (x y : list (T N)) (c : coef) (eps : T N) : T N :=
+    rmspe y (linear_transform x c) eps.
   (* py: linear_fit.py:300-316 rmsle *)
   Definition lf_rmsle (x y : list (T N)) (c : coef) : T N := rmsle y (linear_transform x c).
   (* py: linear_fit.py:325-327 smape *)
@@ -73,7 +72,7 @@ Section LinearFit.
   Definition linear_fit_residuals (x y : list (T N)) : T N :=
     residuals y (linear_transform x (linear_fit x y)).
   (* py: linear_fit.py:245-259, 280-296, 319-322, 330-344, 364-377, 396-409, 428-431  the *_points wrappers *)
-  Definition rmspe_points deps (P : list pt) c eps := lf_rmspe deps (xs P) (ys P) c eps.
+  Definition rmspe_points (P : list pt) c eps := lf_rmspe (xs P) (ys P) c eps.
   Definition rmsle_points (P : list pt) c := lf_rmsle (xs P) (ys P) c.
   Definition smape_points (P : list pt) c eps := lf_smape (xs P) (ys P) c eps.
   Definition rpd_points (P : list pt) c eps := lf_rpd (xs P) (ys P) c eps.
